@@ -439,3 +439,6 @@ CLAIMS["C03"]["text"] += (" A third of the sequential histories give the manager
 
 CLAIMS["C04"]["text"] += (" The host layer also opens bare swarm streams that the opener ends (half-close then close, or close at once) before sending a single byte of protocol negotiation while the connection stays up: the accepting host must dispose of the inbound stream, which must be gone from the connection and from every scope at the mid-life and final audits.")
 CLAIMS["C04"]["note"] += (" The QUIC transport's own listener (gating after the QUIC handshake, seeded change C04-N) and its hole-punch dial path (C04-K) are not driven by any C04 layer.")
+
+CLAIMS["C01"]["text"] += (" Wire edits include frame/record INSERTION by the man in the middle: 1-3 attacker frames in front of every Noise XX message / TLS 1.3 handshake record and behind the last one, of every length class including the empty frame (Noise 00 00, TLS zero-length record), 1-2 bytes, the displaced frame's length +-1 and the framing maximum, enumerated per position and sampled; the receiver of such extended handshake data must not complete.")
+CLAIMS["C01"]["note"] += (" Inserted TLS ChangeCipherSpec/alert records (outside the TLS 1.3 transcript) and frames behind a side's last handshake frame are judged by the identity + no-garbage oracles only.")
